@@ -11,6 +11,8 @@ int main(void)
 	printf("off_nbytes %d\n", (int)offsetof(muggle_shm_ringbuf_data_hdr_t, n_bytes));
 	printf("off_ncl %d\n", (int)offsetof(muggle_shm_ringbuf_data_hdr_t, n_cachelines));
 	printf("ring_hdr_size %d\n", (int)sizeof(muggle_shm_ringbuf_t));
+	printf("flag_creat %d\n", (int)MUGGLE_SHM_FLAG_CREAT);
+	printf("flag_open %d\n", (int)MUGGLE_SHM_FLAG_OPEN);
 	printf("cal");
 	for (unsigned k = 0; k <= 4224; k++) printf(" %u", (unsigned)MUGGLE_SHM_RINGBUF_CAL_BYTES_CACHELINE(k));
 	printf("\n");
